@@ -181,6 +181,10 @@ func runC11case(cs c11case) (leaks []string, info string, nmsgs int, redactedWri
 			{ChannelInput: sec, ChannelResponse: "(?im)^router[>#]$", HideInput: true},
 		}
 		if r.Bool() {
+			// hidden event that just waits for the normal channel prompt (no explicit response)
+			events[1].ChannelResponse = ""
+		}
+		if r.Bool() {
 			d, err := generic.NewDriver("h", append(common, options.WithCustomTransport(dev), options.WithAuthBypass(),
 				options.WithFailedWhenContains([]string{"% Access denied", "% Invalid input"}))...)
 			if err != nil {
